@@ -243,6 +243,7 @@ fn record(
         "i": i,
         "b": b,
         "fired": sink.faults_fired(),
+        "nops": sink.op_count(),
         "res": if res_ok { "ok" } else { "err" },
         "ops": ops_to_json(&ops),
         "calls": calls,
@@ -260,7 +261,6 @@ fn record(
     }
     if fail.1 != FailMode::None {
         rec["fail"] = fail_json(fail.0, fail.1);
-        rec["nops"] = json!(sink.op_count());
     }
     if opts.raw {
         if let Some(cli) = cli {
